@@ -10,6 +10,7 @@
 import MpirProofs.Lemmas.MpfStrDiv
 import MpirProofs.Lemmas.MpfStrGet
 import MpirProofs.Lemmas.MpfStrParse
+import MpirProofs.Lemmas.MpfStrScaled
 namespace Mpir.MpfStr
 open Mpir Mpir.Mpf
 
@@ -294,5 +295,32 @@ example : get_digits 10 0 ⟨2, 1, 1, [12500]⟩ = ([1, 2, 5], 5) := by
     (by decide +kernel) (by decide +kernel) (by decide +kernel) (by decide +kernel)]
   decide +kernel
 example : get_str (-16) 3 ⟨2, -2, 1, [B / 2, 255]⟩ = ("-FF8".toList.map Char.toNat, 2) := by decide +kernel
+
+/-- **The integer whose digits mpf_get_str develops** (get_str.c:180-250, n_limbs_needed = nln ≥ 1 limbs kept at
+    every step).  With |u| the exact magnitude of a well-formed non-zero operand and ε = B^(1-nln):
+    multiplication branch (EXP ≤ nln): the scaling exponent is some e ≥ 0 and
+        |u|·base^e·(1−ε)^(e+1) − 1 < N ≤ |u|·base^e ;
+    division branch (EXP > nln, and the power's ignored limbs do not exceed n_less_limbs_needed, which
+    get_str.c:238 takes for granted): the scaling exponent is −e and
+        |u|/base^e·(1−ε) − 1 < N   and   N·(1−ε)^e ≤ |u|/base^e .
+    The accumulated factor (1−ε)^(e+1) is what one guard limb could not absorb for e in the thousands (the defect
+    repaired in /repo); with nln = 3 + limbs(n_digits) it stays 2^-65·(e+1) below the last requested digit. -/
+theorem scaledInt_bound (base nln : ℕ) (u : F) (hb : 1 ≤ base) (hn : 1 ≤ nln)
+    (hl : Limbs u.d) (hne : u.d ≠ []) (ht : u.d.getLast? ≠ some 0) :
+    (u.exp ≤ (nln : ℤ) →
+      ∃ e : ℕ, (scaledInt base nln u).2 = (e : ℤ) ∧
+        ((scaledInt base nln u).1 : ℚ) ≤ qv u.d u.exp * (base : ℚ) ^ e ∧
+        qv u.d u.exp * (base : ℚ) ^ e * (1 - epsP nln) ^ (e + 1) - 1 < ((scaledInt base nln u).1 : ℚ)) ∧
+    (¬ u.exp ≤ (nln : ℤ) →
+      (powHigh0 base (Radix.mulTrunc (64 * (u.exp - (nln : ℤ)).toNat) (Radix.cpbeBits base)) nln).2 ≤ (u.exp - (nln : ℤ)).toNat →
+      ∃ e : ℕ, (scaledInt base nln u).2 = -(e : ℤ) ∧
+        ((scaledInt base nln u).1 : ℚ) * (1 - epsP nln) ^ e ≤ qv u.d u.exp / (base : ℚ) ^ e ∧
+        qv u.d u.exp / (base : ℚ) ^ e * (1 - epsP nln) - 1 < ((scaledInt base nln u).1 : ℚ)) :=
+  ⟨scaledInt_mul_bound base nln u hb hn hl hne ht, scaledInt_div_bound base nln u hb hn hl hne ht⟩
+
+-- non-vacuity: 2^-64 (one limb, EXP = 0) in base 10 with 4 limbs: scaled by 10^77, N = ⌊10^77 / 2^64⌋;
+-- 5·B^9 (EXP = 10) with 3 limbs: divided by 10^134
+example : scaledInt 10 4 ⟨2, 1, 0, [1]⟩ = (10 ^ 77 / 2 ^ 64, 77) := by decide +kernel
+example : (scaledInt 10 3 ⟨2, 1, 10, [5]⟩).2 = -134 := by decide +kernel
 
 end Mpir.MpfStr
